@@ -249,6 +249,8 @@ pub fn c10_next() {
             assert!(wf(&new), "VERIF next() broke the structural invariant");
         }
     }
+    kani::cover!(r.is_some() && old.rem == 2, "reach: a promotion yielded mid-expansion");
+    kani::cover!(r.is_none() && old.n > 0, "reach: None with entries left");
 }
 
 /// len / is_empty / size_hint / count equal |view|
@@ -405,15 +407,17 @@ fn c10_k2_witness() {
 }
 
 // ---------------------------------------------------------------- observers built on the iterator: state(), is_legal()
-/// contract abstraction of Board::legals for callers that only iterate: an arbitrary well-formed iterator
-/// (C01 establishes which moves it contains; C10 what the operations do)
+/// Whether the position has a legal move is a property of the position, not of the call: the harness fixes it
+/// nondeterministically up front (ghost oracle) and the contract abstraction of Board::legals returns an arbitrary
+/// well-formed iterator that agrees with the oracle. (An earlier version derived the oracle inside the stub; a
+/// state() that skipped the call then went unnoticed — found by a seeded change, see DESIGN 11.6.)
+static mut ORACLE_NO_MOVES: bool = false;
 fn legals_any_stub(_b: &crate::Board) -> MoveGen {
     let s = any_snap();
     kani::assume(wf(&s) && s.index == 0 && s.rem == 4);
-    unsafe { LEGALS_EMPTY = view_len(&s) == 0 };
+    kani::assume((view_len(&s) == 0) == unsafe { ORACLE_NO_MOVES });
     gen_of(&s)
 }
-static mut LEGALS_EMPTY: bool = false;
 
 /// state(): CheckMate iff no legal move and in check; StaleMate (draw) iff no legal move and not in check, or
 /// >= 100 half-moves; Check; Running — as a table over (legals empty, checkers non-empty, half-move clock)
@@ -423,8 +427,9 @@ static mut LEGALS_EMPTY: bool = false;
 fn c03_state() {
     use crate::GameState;
     let b: crate::Board = kani::any();
+    let empty: bool = kani::any();
+    unsafe { ORACLE_NO_MOVES = empty };
     let st = b.state();
-    let empty = unsafe { LEGALS_EMPTY };
     let check = b.checkers.any();
     let want = if empty && check {
         GameState::CheckMate
